@@ -196,7 +196,7 @@ def register(S):
     # ------------------------------------------------------------------ Reader
     @S.on("deku::reader::Reader::<'a, R>::new")
     def reader_new(ctx):
-        return ctx.ret(Opaque.make("reader", inner=ctx.args[0], leftover=(), last=0, bits_read=0))
+        return ctx.ret(Opaque.make("reader", inner=ctx.args[0], leftover=(), last=0, bits_read=0, skew=0))
 
     def take_bits(ip, st, rref, n, cont):
         """consume n bits from the deku reader; cont(ip, st, bits_msb | None on EOF)"""
@@ -268,6 +268,8 @@ def register(S):
             start = rd.get("bits_read") - nbits
             v = assemble(bits, little, ty)
             v = ip.reduce_int(st, v)
+            if v.deps:
+                v.tags = v.tags | frozenset([("rd", min(v.deps), max(v.deps) + 1)])
             st.events.append({"kind": "field_read", "nbits": nbits, "little": little, "explicit_endian": explicit, "ty": repr(ty),
                               "fn": fnp, "deps": v.deps, "span": span})
             return ip.finish_call(st, dest, target, wrap(ip, st, v))
@@ -470,14 +472,19 @@ def register(S):
         amt = number // 8 + (1 if number % 8 else 0)
         dest, target = ctx.dest, ctx.target
         pos_before = rd.get("bits_read")
+        fnp = ctx.fr.fn["path"]
+        span = ctx.call.get("span")
         inner_ref = rd.get("inner")
         inner = ip.read_loc(st, inner_ref.loc)
         seekfrom = AdtVal("std::io::SeekFrom", 2, [IntVal.const(IntTy(64, True), -amt)], vname="Current")
 
         def after(ip2, st2, rv):
             rd2 = ip2.read_loc(st2, rref.loc)
+            after_bit = pos_before + len(rd.get("leftover")) - 8 * amt
+            start_bit = pos_before - number
             st2.events.append({"kind": "seek_last_read", "last": number, "bytes": amt, "bits_read_before": pos_before,
-                               "leftover_before": len(rd.get("leftover"))})
+                               "leftover_before": len(rd.get("leftover")), "fn": fnp, "span": span, "skew_before": rd.get("skew", 0)})
+            rd2 = rd2.set(skew=rd2.get("skew", 0) + (start_bit - after_bit))
             if isinstance(rv, AdtVal) and rv.path == RESULT and rv.variant == 1:
                 return ip2.finish_call(st2, dest, target, err(rv.fields[0]))
             ip2.write_loc(st2, rref.loc, rd2.set(leftover=(), bits_read=rd2.get("bits_read") - number))
